@@ -129,15 +129,12 @@ def _w2_w3(prog, res):
   wiring.check_constrained_weight(
       prog, res, lat_build, 'LATTICE_KERNEL_NAME', lc,
       implications=IMPLICATIONS,
-      covered_elsewhere={'num_iterations': 'zero iterations is an explicit '
-                                           'request for no iterative step'})
+      covered_elsewhere={})
   callm = lc.methods['__call__']
   dyk = prog.function('lattice_lib.project_by_dykstra')
   fin = prog.function('lattice_lib.finalize_constraints')
   res.analysed(callm, dyk, fin)
-  for target, cov in ((dyk, {'num_iterations':
-                             'zero iterations is an explicit request for no '
-                             'iterative projection'}),
+  for target, cov in ((dyk, {}),
                       (fin, {'output_min': 'bounds are clipped unconditionally '
                                            'after the guarded block (rule W4 '
                                            'of C01)',
